@@ -18,7 +18,9 @@ Inductive tamper :=
        (= harness key k) with attacker-chosen shares *)
 | TDupGrant (gi : nat)                 (* a copy of grant gi appended as a new grant *)
 | TNoGrants
-| TNoKeypairs.
+| TNoKeypairs
+| TCtxHashFor (c2 : bytes)             (* context hash recomputed for another context *)
+| TMulti (l : list tamper).            (* several fields changed, in order *)
 
 Inductive uobs :=
 | UErr (k : nat)
@@ -47,7 +49,7 @@ Definition with_grants (env : envelope) (gs : list grant) : envelope :=
 Definition atom (n : nat) (tag : Z) : sbytes := fapp FN_ATOM n [lift [tag]].
 Definition the_rnd : rnd := {| r_secret := atom 32 1; r_poly := atom 32 2; r_nonce := atom 24 3 |}.
 
-Definition apply_tamper (o : orc) (ctx : sbytes) (env : envelope) (tm : tamper) : envelope :=
+Fixpoint apply_tamper (o : orc) (ctx : sbytes) (env : envelope) (tm : tamper) : envelope :=
   match tm with
   | TNone => env
   | TThreshold t =>
@@ -97,6 +99,12 @@ Definition apply_tamper (o : orc) (ctx : sbytes) (env : envelope) (tm : tamper) 
   | TNoKeypairs =>
       {| e_id := e_id env; e_ctxhash := e_ctxhash env; e_threshold := e_threshold env; e_ct := e_ct env;
          e_grants := e_grants env; e_keypairs := [] |}
+  | TCtxHashFor c2 =>
+      {| e_id := e_id env; e_ctxhash := hash_context (lift c2); e_threshold := e_threshold env; e_ct := e_ct env;
+         e_grants := e_grants env; e_keypairs := e_keypairs env |}
+  | TMulti l =>
+      (fix go (l : list tamper) (e : envelope) : envelope :=
+         match l with [] => e | t :: r => go r (apply_tamper o ctx e t) end) l env
   end.
 
 Inductive env_case :=
